@@ -12,6 +12,7 @@ the models proved in C09.  Range hypotheses: every serialised chunk is shorter t
 (`compressed_size as u32`), the content is shorter than 2^32 bytes (`decompressed_size as u32`).
 -/
 import Cascette.Proofs.Blte
+import Cascette.Proofs.BlteEntry
 namespace Cascette.Props.C01
 open Cascette Cascette.Model.Blte Cascette.Proofs.Blte
 
@@ -172,6 +173,342 @@ theorem unusable_mode_rejected (cd : Codec) (b : Builder) (d : Bytes) (he : b.en
       obtain ⟨e, he'⟩ := hmk x b.chunks.length
       exact ⟨e, by simp [makeChunks, he']⟩
 
+/-! ### the encoder entry points outside the builder
+
+`BlteFile::compress`, `BlteFile::single_chunk`, `BlteFile::multi_chunk` and
+`BlteHeader::multi_chunk_extended` are encoder calls of the property too.  They take no key, so the
+reader may use `decompress()` (no key store) as well as `decompress_with_keys`; both are covered. -/
+
+/-- **`BlteFile::compress` round trip.**  For every payload, every chunk size (0 included) and
+every mode: if `compress(data, chunk_size, mode)` returns `Ok`, then parsing and decoding the
+serialised container — with any key store, or with `decompress()` and none — yields exactly
+`data`. -/
+theorem compress_roundtrip (cd : Codec) (law : Lawful cd) (keys : Nat → Option Bytes)
+    (H : Bytes → Bytes) (hH : ∀ x, (H x).length = 16) (data : Bytes) (cs : Nat) (mode : Mode)
+    (f : File) (h : compress cd H data cs mode = .ok f)
+    (hsz : ∀ c ∈ f.chunks, 1 + c.data.length < 2 ^ 32) :
+    decodeBytes cd keys (serialize f) = .ok data ∧ decodePlainBytes cd (serialize f) = .ok data := by
+  obtain ⟨ps, chunks, hflat, hmk, hl⟩ := compress_layout cd H data cs mode f h
+  have hg := makeChunks_good cd law keys mode none (fun _ he => by cases he) ps 0 chunks hmk
+  have hmodes := (makeChunks_none_modes cd mode ps 0 chunks hmk).2
+  have hfc : f.chunks = chunks := by
+    rcases hl with ⟨c, hc, _, rfl⟩ | ⟨_, _, rfl⟩
+    · exact hc.symm
+    · rfl
+  rw [hfc] at hsz
+  obtain ⟨_, _, hdec, hplain, _⟩ := layout_good cd keys H hH chunks ps f hl hg hsz
+  have hplain' := hplain hmodes
+  rw [hflat] at hdec hplain'
+  exact ⟨hdec, hplain'⟩
+
+/-- **The table `compress` writes is truthful** (same statement as `blte_table_truthful`): the
+container parses back to what was written; with a table, row `i` records the serialised length of
+chunk `i`, `H` of exactly those bytes and the length of the content it decodes to; the contents
+concatenate to `data`; without a table there is exactly one chunk. -/
+theorem compress_table_truthful (cd : Codec) (law : Lawful cd) (keys : Nat → Option Bytes)
+    (H : Bytes → Bytes) (hH : ∀ x, (H x).length = 16) (data : Bytes) (cs : Nat) (mode : Mode)
+    (f : File) (h : compress cd H data cs mode = .ok f)
+    (hsz : ∀ c ∈ f.chunks, 1 + c.data.length < 2 ^ 32) (hlen : data.length < 2 ^ 32) :
+    ∃ plains : List Bytes, plains.flatten = data ∧
+      parse (serialize f) = .ok ⟨f.headerSize, f.table, f.chunks.map strip⟩ ∧
+      match f.table with
+      | some rows => RowsTruthful cd keys H rows (f.chunks.map strip) 0 plains
+      | none => ∃ c, f.chunks = [c] := by
+  obtain ⟨ps, chunks, hflat, hmk, hl⟩ := compress_layout cd H data cs mode f h
+  have hg := makeChunks_good cd law keys mode none (fun _ he => by cases he) ps 0 chunks hmk
+  have hfc : f.chunks = chunks := by
+    rcases hl with ⟨c, hc, _, rfl⟩ | ⟨_, _, rfl⟩
+    · exact hc.symm
+    · rfl
+  rw [hfc] at hsz
+  obtain ⟨hparse, _, _, _, hrows⟩ := layout_good cd keys H hH chunks ps f hl hg hsz
+  refine ⟨ps, hflat, hparse, hrows ?_⟩
+  intro q hq
+  exact Nat.lt_of_le_of_lt (length_le_flatten ps q hq) (by rw [hflat]; exact hlen)
+
+/-- **`compress` is a builder program**: for every payload, chunk size and mode it returns exactly
+what `BlteBuilder::new().with_compression(mode).with_chunk_size_unchecked(chunk_size)
+.add_data(data)?.build()` returns — the same container or the same error — so every statement
+about builder programs (`blte_roundtrip`, `blte_table_truthful`, `blte_error_not_garbage`) holds
+of it. -/
+theorem compress_is_builder_program (cd : Codec) (H : Bytes → Bytes) (data : Bytes) (cs : Nat)
+    (mode : Mode) :
+    compress cd H data cs mode =
+      match run cd Builder.init [.withCompression mode, .withChunkSize cs, .addData data] with
+      | .error e => .error e
+      | .ok b => build H b := by
+  simp only [run, step, Builder.init, addWith, pieces, List.length_nil]
+  unfold compress
+  by_cases h1 : data.length ≤ cs
+  · simp only [h1, if_true, makeChunks, makeChunk, singleChunk]
+    cases hc : Chunk.new cd data mode with
+    | error e => rfl
+    | ok c =>
+      have hm := chunkNew_mode cd data mode c hc
+      have hne : c.mode ≠ .enc := by rw [hm.1]; exact hm.2.1
+      simp [build, hne]
+  · by_cases h0 : cs = 0
+    · subst h0
+      simp only [h1, if_true, if_false]
+    · simp only [h1, h0, if_false]
+      cases hmk : makeChunks cd mode none (splitLoop cs data.length data) 0 with
+      | error e => rfl
+      | ok chunks =>
+        have hlen := (makeChunks_none_modes cd mode _ 0 chunks hmk).1
+        have h2 := splitLoop_two cs (by omega) data (by omega)
+        have hne : chunks ≠ [] := by
+          intro he; rw [he] at hlen; simp at hlen; omega
+        have hne' : chunks.isEmpty = false := by
+          cases chunks with
+          | nil => exact absurd rfl hne
+          | cons _ _ => rfl
+        have hl1 : ¬ (chunks.length = 1) := by omega
+        simp only [build, multiChunk, List.nil_append, hne', hl1, false_and, if_false,
+          Bool.false_eq_true]
+
+/-- Chunk size 0 in `compress`: a non-empty payload cannot be chunked and is refused with
+`Err(InvalidChunkSize)` for every mode (the pinned tree never returned; repaired); the empty
+payload is one chunk and is covered by `compress_roundtrip`. -/
+theorem compress_zero_chunk_size_rejected (cd : Codec) (H : Bytes → Bytes) (d : Bytes) (mode : Mode)
+    (hd : d ≠ []) : compress cd H d 0 mode = .error .chunkSize := by
+  have hl : ¬ (d.length ≤ 0) := by
+    cases d with
+    | nil => exact absurd rfl hd
+    | cons _ _ => simp
+  simp [compress, hl]
+
+/-- **`BlteFile::single_chunk` round trip**: for every payload and mode, an `Ok` container decodes
+(with or without key store) to the payload.  No size hypothesis: there is no table to overflow. -/
+theorem single_chunk_roundtrip (cd : Codec) (law : Lawful cd) (keys : Nat → Option Bytes)
+    (data : Bytes) (mode : Mode) (f : File) (h : singleChunk cd data mode = .ok f) :
+    decodeBytes cd keys (serialize f) = .ok data ∧ decodePlainBytes cd (serialize f) = .ok data ∧
+    f.table = none := by
+  unfold singleChunk at h
+  split at h
+  · cases h
+  · rename_i c hc
+    simp only [Except.ok.injEq] at h; subst h
+    have hm := chunkNew_mode cd data mode c hc
+    have hne : c.mode ≠ .enc := by rw [hm.1]; exact hm.2.1
+    have hg := (chunkNew_good cd law keys data mode c 0 hc).1
+    have hg' := hg
+    simp only [decodeChunk, hne, if_false] at hg'
+    have hs : decodeChunk cd keys (strip c) 0 = .ok data := hg
+    refine ⟨?_, ?_, rfl⟩
+    · simp only [decodeBytes, parse_serialize_single, decode, firstIsEnc, strip, hne, decide_false,
+        Bool.false_eq_true, and_false, if_false, Model.Blte.decodeFrom]
+      have : decodeChunk cd keys ⟨c.mode, c.data, none⟩ 0 = .ok data := hs
+      simp only [this, List.append_nil]
+    · simp only [decodePlainBytes, parse_serialize_single, decodePlain, decodePlainFrom, strip, hg',
+        List.append_nil]
+
+/-- **`BlteFile::multi_chunk` round trip and table**: for every vector of chunks made by
+`ChunkData::new` (any payloads, any modes, any number ≥ 1 — one chunk included, a table the builder
+never writes for a plain chunk), an `Ok` container decodes (with or without key store) to the
+concatenation of the payloads, always carries a table, and the table is truthful. -/
+theorem multi_chunk_roundtrip (cd : Codec) (law : Lawful cd) (keys : Nat → Option Bytes)
+    (H : Bytes → Bytes) (hH : ∀ x, (H x).length = 16) (ds : List (Bytes × Mode))
+    (chunks : List Chunk) (f : File) (hnew : newChunks cd ds = .ok chunks)
+    (h : multiChunk H chunks = .ok f) (hsz : ∀ c ∈ chunks, 1 + c.data.length < 2 ^ 32) :
+    decodeBytes cd keys (serialize f) = .ok (ds.map (·.1)).flatten ∧
+    decodePlainBytes cd (serialize f) = .ok (ds.map (·.1)).flatten ∧
+    parse (serialize f) = .ok ⟨f.headerSize, f.table, f.chunks.map strip⟩ ∧
+    f.headerSize = 12 + 24 * chunks.length ∧
+    ((∀ d ∈ ds, d.1.length < 2 ^ 32) → ∃ rows, f.table = some rows ∧
+      RowsTruthful cd keys H rows (chunks.map strip) 0 (ds.map (·.1))) := by
+  obtain ⟨hg, hmodes⟩ := newChunks_good cd law keys ds 0 chunks hnew
+  have hl := multiChunk_layout H chunks f h
+  obtain ⟨hparse, hfc, hdec, hplain, hrows⟩ := layout_good cd keys H hH chunks _ f hl hg hsz
+  refine ⟨hdec, hplain hmodes, hparse, ?_, ?_⟩
+  · rcases hl with ⟨c, hc, _, rfl⟩ | ⟨_, hn, rfl⟩
+    · -- `multi_chunk` never returns the single-chunk layout
+      unfold multiChunk at h
+      split at h
+      · cases h
+      · split at h
+        · cases h
+        · simp only [Except.ok.injEq, File.mk.injEq] at h
+          have := h.2.1
+          cases this
+    · have : (12 + chunks.length * 24) % 2 ^ 32 = 12 + 24 * chunks.length := by
+        rw [Nat.mod_eq_of_lt (by rw [two32]; omega)]; omega
+      exact this
+  · intro hd
+    have hpl : ∀ q ∈ ds.map (·.1), q.length < 2 ^ 32 := by
+      intro q hq
+      obtain ⟨d, hd', rfl⟩ := List.mem_map.1 hq
+      exact hd d hd'
+    have hr := hrows hpl
+    rcases hl with ⟨c, hc, _, rfl⟩ | ⟨_, _, rfl⟩
+    · unfold multiChunk at h
+      split at h
+      · cases h
+      · split at h
+        · cases h
+        · simp only [Except.ok.injEq, File.mk.injEq] at h
+          have := h.2.1
+          cases this
+    · exact ⟨_, rfl, hr⟩
+
+/-- **`BlteHeader::multi_chunk_extended`** (table format `0x10`, 40-byte rows): for every vector of
+`ChunkData::new` chunks, the serialised container reads back (the reader keeps the standard columns
+of each row), decodes — with or without key store — to the concatenation of the payloads, its header
+size is `12 + 40·n`, the standard columns are truthful and the extra column of row `i` is `H` of
+the content of chunk `i`. -/
+theorem multi_chunk_extended_roundtrip (cd : Codec) (law : Lawful cd) (keys : Nat → Option Bytes)
+    (H : Bytes → Bytes) (hH : ∀ x, (H x).length = 16) (ds : List (Bytes × Mode))
+    (chunks : List Chunk) (xf : XFile) (hnew : newChunks cd ds = .ok chunks)
+    (h : multiChunkExt cd H chunks = .ok xf) (hsz : ∀ c ∈ chunks, 1 + c.data.length < 2 ^ 32) :
+    decodeBytes cd keys (serializeX xf) = .ok (ds.map (·.1)).flatten ∧
+    decodePlainBytes cd (serializeX xf) = .ok (ds.map (·.1)).flatten ∧
+    xf.headerSize = 12 + 40 * chunks.length ∧
+    xf.rows.map (·.dsum) = ds.map (fun d => H d.1) ∧
+    ((∀ d ∈ ds, d.1.length < 2 ^ 32) →
+      RowsTruthful cd keys H (xf.rows.map (·.row)) (chunks.map strip) 0 (ds.map (·.1))) := by
+  obtain ⟨hg, hmodes⟩ := newChunks_good cd law keys ds 0 chunks hnew
+  obtain ⟨hch, hrows, hhs, hne, hparse⟩ := parse_serializeX cd H hH chunks xf h hsz
+  have hd := AllGood.decodeFrom chunks 0 _ hg
+  have hnz : ¬ (xf.headerSize = 0) := by omega
+  refine ⟨?_, ?_, by omega, ?_, ?_⟩
+  · simp only [decodeBytes, hparse, decode, hnz, false_and, if_false, decodeFrom_strip, hd]
+  · simp only [decodePlainBytes, hparse, decodePlain, decodePlainFrom_strip,
+      decodePlainFrom_eq cd keys chunks 0 hmodes, hd]
+  · rw [hrows]; exact newChunks_dsum cd law H ds chunks hnew
+  · intro hdl
+    have hpl : ∀ q ∈ ds.map (·.1), q.length < 2 ^ 32 := by
+      intro q hq
+      obtain ⟨d, hd', rfl⟩ := List.mem_map.1 hq
+      exact hdl d hd'
+    have : xf.rows.map (·.row) = chunks.map (Row.ofChunk H) := by
+      rw [hrows]; simp [List.map_map, XRow.ofChunk, Function.comp_def]
+    rw [this]
+    exact rows_truthful cd keys H chunks 0 _ hg hsz hpl
+
+/-- **`BlteFile::decompress` (no key store) on builder containers**: under the hypotheses of the
+round trip, whatever `decompress()` returns with `Ok` is the added content, and when no chunk is
+encrypted it does return it. (An encrypted chunk makes `decompress()` fail: it never returns
+ciphertext as content.) -/
+theorem blte_decompress_without_keys (cd : Codec) (law : Lawful cd) (keys : Nat → Option Bytes)
+    (H : Bytes → Bytes) (hH : ∀ x, (H x).length = 16) (p : List Op) (b : Builder) (f : File)
+    (hp : ProgOk cd keys Builder.init p) (hrun : run cd Builder.init p = .ok b)
+    (hbuild : build H b = .ok f) (hsz : ∀ c ∈ f.chunks, 1 + c.data.length < 2 ^ 32) :
+    (∀ x, decodePlainBytes cd (serialize f) = .ok x → x = content p) ∧
+    ((∀ c ∈ f.chunks, c.mode ≠ .enc) → decodePlainBytes cd (serialize f) = .ok (content p)) := by
+  have hrt := blte_roundtrip_partial cd law keys H hH p b f hp hrun hbuild hsz
+  have hsz' := hsz
+  rw [build_chunks H b f hbuild] at hsz'
+  have hparse := (parse_serialize_build H hH b f hbuild hsz').1
+  simp only [decodeBytes, hparse] at hrt
+  constructor
+  · intro x hx
+    simp only [decodePlainBytes, hparse] at hx
+    have := decodePlain_ok_decode cd keys _ x hx
+    rw [hrt] at this
+    exact (Except.ok.inj this).symm
+  · intro hne
+    simp only [decodePlainBytes, hparse]
+    rw [decodePlain_eq_decode cd keys _ ?_, hrt]
+    intro c hc
+    obtain ⟨c', hc', rfl⟩ := List.mem_map.1 hc
+    exact hne c' hc'
+
+/-! ### Frame mode and nested containers: refused by encoder and decoder -/
+
+/-- **No encoder call accepts Frame mode.**  `ChunkData::new(_, Frame)`, `single_chunk(_, Frame)`,
+`compress(_, _, Frame)` and — under `with_compression(Frame)` — `add_data`, `add_mixed_data`
+(plain or encrypted) and `add_encrypted_data` all return `Err`; so does
+`add_chunk(ChunkData::new(_, Frame)?)` whatever the builder's mode. -/
+theorem frame_mode_rejected_by_encoder (cd : Codec) (H : Bytes → Bytes) (d : Bytes) :
+    Chunk.new cd d .frame = .error .unsupported ∧
+    singleChunk cd d .frame = .error .unsupported ∧
+    (∀ cs, ∃ e, compress cd H d cs .frame = .error e) ∧
+    (∀ b : Builder, step cd b (.addChunkNew d .frame) = .error .unsupported) ∧
+    (∀ b : Builder, b.mode = .frame →
+      (∃ e, step cd b (.addData d) = .error e) ∧
+      (∀ enc, ∃ e, step cd b (.addMixed d enc) = .error e) ∧
+      (∀ s k i, step cd b (.addEncrypted d s k i) = .error .unsupported)) := by
+  have h1 : Chunk.new cd d .frame = .error .unsupported := by
+    simp [Chunk.new, compressChunk]
+  have h2 : singleChunk cd d .frame = .error .unsupported := by simp [singleChunk, h1]
+  refine ⟨h1, h2, ?_, ?_, ?_⟩
+  · intro cs
+    unfold compress
+    by_cases hl : d.length ≤ cs
+    · exact ⟨.unsupported, by simp only [hl, if_true, h2]⟩
+    · by_cases h0 : cs = 0
+      · subst h0
+        exact ⟨.chunkSize, by simp only [hl, if_true, if_false]⟩
+      · simp only [hl, h0, if_false]
+        cases hs : splitLoop cs d.length d with
+        | nil =>
+          have := splitLoop_two cs (by omega) d (by omega)
+          rw [hs] at this; simp at this
+        | cons x xs =>
+          exact ⟨.unsupported, by simp [makeChunks, makeChunk_frame]⟩
+  · intro b
+    simp only [step, h1]
+  · intro b hm
+    refine ⟨addWith_frame cd b hm b.enc d, fun enc => addWith_frame cd b hm enc d, ?_⟩
+    intro s k i
+    simp [step, hm, encChunk, buildInner, compressChunk]
+
+/-- **No decoder accepts a Frame chunk.**  A container that holds a chunk of mode `F` anywhere —
+however it was made — is never decoded: neither `decompress_with_keys` (any key store) nor
+`decompress` returns `Ok`. -/
+theorem frame_chunk_rejected_by_decoder (cd : Codec) (keys : Nat → Option Bytes) (f : File)
+    (h : ∃ c ∈ f.chunks, c.mode = .frame) :
+    (∀ x, decode cd keys f ≠ .ok x) ∧ (∀ x, decodePlain cd f ≠ .ok x) := by
+  obtain ⟨c, hc, hm⟩ := h
+  have h1 : ∀ x, decode cd keys f ≠ .ok x := by
+    intro x hx
+    unfold decode at hx
+    split at hx
+    · cases hx
+    · exact decodeFrom_ok_no_frame cd keys f.chunks 0 x hx c hc hm
+  exact ⟨h1, fun x hx => h1 x (decodePlain_ok_decode cd keys f x hx)⟩
+
+/-- **Recursive BLTE is not unwrapped, it is refused**: the single-chunk container whose chunk is
+`'F'` followed by ANY bytes `d` (a complete nested BLTE container, for instance) parses, and both
+decoders answer `Err(UnsupportedCompressionMode)`. -/
+theorem frame_container_rejected (cd : Codec) (keys : Nat → Option Bytes) (d : Bytes) :
+    decodeBytes cd keys (magic ++ [0, 0, 0, 0] ++ 0x46 :: d) = .error .unsupported ∧
+    decodePlainBytes cd (magic ++ [0, 0, 0, 0] ++ 0x46 :: d) = .error .unsupported := by
+  have e : magic ++ [0, 0, 0, 0] ++ 0x46 :: d = serialize ⟨0, none, [⟨.frame, d, none⟩]⟩ := by
+    have e0 : beBytes 4 0 = [0, 0, 0, 0] := by decide
+    simp [serialize, e0, Chunk.bytes, Mode.byte]
+  rw [e]
+  simp [decodeBytes, decodePlainBytes, parse_serialize_single, decode, decodePlain, firstIsEnc,
+    strip, Model.Blte.decodeFrom, decodePlainFrom, decodeChunk, decompressChunk]
+
+/-- **A nested mode byte inside an encrypted chunk**: when the decrypted payload starts with `'F'`
+the chunk is refused with `UnsupportedCompressionMode`, when it starts with `'E'` with
+`NestedEncryption` — stated on chunks encrypted by `encrypt_chunk_with_key` at the index they are
+decoded at, for every Salsa20/ARC4 spec whose key is in the store and every payload tail. -/
+theorem nested_mode_byte_rejected (cd : Codec) (keys : Nat → Option Bytes) (rest ed : Bytes)
+    (first : Byte) (spec : EncSpec) (key : Bytes) (idx : Nat) (decl : Option Nat)
+    (hok : EncOk keys (spec, key)) (h : encryptChunk (first :: rest) spec key idx = .ok ed) :
+    (first = 0x46 → decodeChunk cd keys ⟨.enc, ed, decl⟩ idx = .error .unsupported) ∧
+    (first = 0x45 → decodeChunk cd keys ⟨.enc, ed, decl⟩ idx = .error .nested) := by
+  have hd := decrypt_encrypt cd keys (first :: rest) ed spec key idx hok (by simp) h
+  constructor
+  · intro hf; subst hf
+    simp only [decodeChunk, if_true, hd]
+    simp [decodeInner, Mode.ofByte, decompressChunk]
+  · intro hf; subst hf
+    simp only [decodeChunk, if_true, hd]
+    simp [decodeInner, Mode.ofByte]
+
+/-- **A nested container is content**: handing the bytes of a complete BLTE container to the
+encoder yields a container that decodes to those bytes verbatim — the decoder does not unwrap
+nested BLTE. (Instance of `compress_roundtrip`; the same holds for builder programs by
+`blte_roundtrip`.) -/
+theorem nested_container_is_content (cd : Codec) (law : Lawful cd) (keys : Nat → Option Bytes)
+    (H : Bytes → Bytes) (hH : ∀ x, (H x).length = 16) (inner : File) (cs : Nat) (mode : Mode)
+    (f : File) (h : compress cd H (serialize inner) cs mode = .ok f)
+    (hsz : ∀ c ∈ f.chunks, 1 + c.data.length < 2 ^ 32) :
+    decodeBytes cd keys (serialize f) = .ok (serialize inner) :=
+  (compress_roundtrip cd law keys H hH _ cs mode f h hsz).1
+
 /-! ### side statements the proof needs -/
 
 /-- The builder always prepends its own mode byte to the inner payload of an encrypted chunk, so
@@ -239,5 +576,56 @@ example :
   · exact ⟨trivial, trivial⟩
   · exact ⟨⟨by decide, by decide, by decide, by decide⟩, trivial⟩
   all_goals exact ⟨trivial, trivial⟩
+
+/-- the entry points outside the builder on concrete inputs (kernel evaluation of the model):
+`compress` of five bytes starting with `F E` at chunk size 2 (three chunks, table, read with
+`decompress()`), at chunk size 9 (single chunk), `multi_chunk` and `multi_chunk_extended` over two
+`ChunkData::new` chunks, `single_chunk` — all return `Ok` within the size bounds and decode to the
+payload, so the hypotheses of `compress_roundtrip`, `compress_table_truthful`,
+`single_chunk_roundtrip`, `multi_chunk_roundtrip`, `multi_chunk_extended_roundtrip` and
+`nested_container_is_content` are met by non-trivial instances. -/
+example :
+    let H : Bytes → Bytes := fun _ => List.replicate 16 0
+    let d : Bytes := [0x46, 0x45, 0x00, 0x4E, 0x5A]
+    let small : File → Bool := fun f => f.chunks.all fun c => decide (1 + c.data.length < 2 ^ 32)
+    (match compress idCodec H d 2 .zlib with
+     | .ok f => small f && f.chunks.length == 3 && isOkWith (decodePlainBytes idCodec (serialize f)) d
+     | .error _ => false) = true ∧
+    (match compress idCodec H d 9 .lz4 with
+     | .ok f => small f && f.chunks.length == 1 &&
+         isOkWith (decodeBytes idCodec (fun _ => none) (serialize f)) d
+     | .error _ => false) = true ∧
+    (match singleChunk idCodec d .none with
+     | .ok f => isOkWith (decodePlainBytes idCodec (serialize f)) d
+     | .error _ => false) = true ∧
+    (match newChunks idCodec [([0x46, 0x45], .none), ([0x00, 0x4E, 0x5A], .zlib)] with
+     | .ok chunks =>
+       (match multiChunk H chunks with
+        | .ok f => small f && isOkWith (decodePlainBytes idCodec (serialize f)) d
+        | .error _ => false) &&
+       (match multiChunkExt idCodec H chunks with
+        | .ok xf => xf.headerSize == 92 && isOkWith (decodePlainBytes idCodec (serializeX xf)) d
+        | .error _ => false)
+     | .error _ => false) = true ∧
+    (match compress idCodec H d 9 .none with
+     | .ok inner =>
+       (match compress idCodec H (serialize inner) 4 .none with
+        | .ok f => small f && isOkWith (decodePlainBytes idCodec (serialize f)) (serialize inner)
+        | .error _ => false)
+     | .error _ => false) = true := by decide +kernel
+
+/-- the hypotheses of `nested_mode_byte_rejected` are met: a Salsa20 spec with its key in the store
+encrypts an inner payload starting with `'F'` / `'E'`; and a file with a Frame chunk exists
+(`frame_chunk_rejected_by_decoder`). -/
+example :
+    let key : Bytes := List.replicate 16 7
+    let spec : EncSpec := ⟨7, [9, 8, 7, 6], 0x53⟩
+    let keys : Nat → Option Bytes := fun n => if n = 7 then some key else none
+    EncOk keys (spec, key) ∧
+    (match encryptChunk (0x46 :: [1, 2]) spec key 3 with | .ok _ => true | .error _ => false) = true ∧
+    (match encryptChunk (0x45 :: []) spec key 0 with | .ok _ => true | .error _ => false) = true ∧
+    (∃ c ∈ (⟨0, none, [⟨.frame, [1], none⟩]⟩ : File).chunks, c.mode = .frame) :=
+  ⟨⟨by decide, by decide, by decide, by decide⟩, by decide +kernel, by decide +kernel,
+    ⟨_, List.mem_singleton.2 rfl, rfl⟩⟩
 
 end Cascette.Props.C01
